@@ -174,7 +174,7 @@ class Charset(BaseEngine):
         return 'fault_enumeration'
 
     def tiers(self, prop):
-        return {'quick': 60_000, 'thorough': 2_000_000}
+        return {'quick': 60_000, 'thorough': 1_200_000}
 
     # --------------------------------------------------------------- generation
     def gen_content(self, rng, cs, pool=()):
